@@ -85,6 +85,18 @@ def encode(units, enc):
     return s.encode("utf-8", "surrogatepass")
 
 
+def doc_bytes(c):
+    """the bytes handed to the parser for case c"""
+    b = encode(c.units, c.enc)
+    if c.splice:
+        m = encode([c.splice[0]], c.enc)
+        if c.enc == "utf16":
+            m = m[2:]
+        i = b.find(m)
+        b = b[:i] + c.splice[1] + b[i + len(m):]
+    return b + c.tail
+
+
 def bhex(b):
     return "-" if not b else b.hex().upper()
 
@@ -156,7 +168,7 @@ def dynamic_crosscheck(ctx, xd, codes, xh, xm):
 
 # ---------------------------------------------------------------------------------------------------------
 class Case:
-    __slots__ = ("kind", "op", "units", "enc", "spec_events", "wf", "ns_list", "doc", "model", "impl", "note", "colon", "tag", "tail")
+    __slots__ = ("kind", "op", "units", "enc", "spec_events", "wf", "ns_list", "doc", "model", "impl", "note", "colon", "tag", "tail", "splice")
 
     def __init__(self, kind, op, units, enc, spec_events=None, wf=None, ns_list=(0, 1), doc=None):
         self.kind, self.op, self.units, self.enc = kind, op, units, enc
@@ -166,6 +178,7 @@ class Case:
         self.note = None
         self.tag = None          # sub-class of a mutant used for the attribution to a known finding
         self.tail = b""          # raw bytes appended after the encoded text (truncated multi-byte sequence)
+        self.splice = None       # (marker unit, raw bytes): the encoded marker is replaced by an ill-formed byte sequence
         # names with a colon are only used with namespace processing off; SGXMLScanner is namespace-aware
         # regardless of the setting (schema processing needs it), so it is not held to those documents
         self.colon = len(self.ns_list) == 1
@@ -313,6 +326,34 @@ def gen_cases(ctx, xm, n_valid, n_mut, jobs):
             rng.choice([b"\x41", b"\x00", b"\x0a\x00\x3c"])
         c.tag = "trunc-tail"
         cases.append(c)
+    # ---- byte level: an ill-formed UTF-8 sequence inside the root element's content (over-long forms, encoded
+    #      surrogates, values above U+10FFFF, 5-byte forms, stray continuation bytes, FE/FF, broken continuation):
+    #      "bytes that are not a legal sequence in the encoding" must give a fatal error
+    bad8 = [b"\xc0\xaf", b"\xc1\xbf", b"\xe0\x80\xaf", b"\xe0\x9f\xbf", b"\xf0\x80\x80\xaf", b"\xf0\x8f\xbf\xbf",
+            b"\xf0\x82\x82\xac", b"\xf0\x80\x81\x81", b"\xed\xa0\x80", b"\xed\xbf\xbf", b"\xf4\x90\x80\x80",
+            b"\xf5\x80\x80\x80", b"\xf8\x88\x80\x80\x80", b"\x80", b"\xbf", b"\xfe", b"\xff", b"\xe2\x82", b"\xc3",
+            b"\xf0\x9f\x98"]
+    made8 = 0
+    for j in range(200):
+        if made8 >= 60:
+            break
+        doc, enc, colon, r = pool[rng.randrange(len(pool))]
+        u = list(r["units"])
+        if enc != "utf8" or len(u) > 1500 or 0xE000 in u:
+            continue
+        at = None
+        for i in range(len(u) - 2, 0, -1):
+            if u[i] == 0x3C and u[i + 1] == 0x2F:
+                at = i
+                break
+        if at is None:
+            continue
+        raw = bad8[made8 % len(bad8)]
+        c = Case("mutant", "illformed-utf8", u[:at] + [0xE000] + u[at:], enc, None, False, (0,) if colon else (0, 1))
+        c.splice = (0xE000, raw)
+        c.tag = "bad-bytes"
+        cases.append(c)
+        made8 += 1
     return cases
 
 
@@ -329,7 +370,7 @@ def run_cases(ctx, xh, xm, cases, jobs, cfgs):
         if c.kind == "generator-bug":
             continue
         hx = hex4(c.units)
-        bx = bhex(encode(c.units, c.enc) + c.tail)
+        bx = bhex(doc_bytes(c))
         for ns in c.ns_list:
             ml.append("scan %d %s" % (ns, hx))
             mi.append((ci, ns))
@@ -347,7 +388,7 @@ def run_cases(ctx, xh, xm, cases, jobs, cfgs):
 
 
 def request_of(c, a, s, ns):
-    return "parse %s %s %d %s" % (a, s, ns, bhex(encode(c.units, c.enc) + c.tail))
+    return "parse %s %s %d %s" % (a, s, ns, bhex(doc_bytes(c)))
 
 
 KNOWN_CLASSES = {
@@ -511,7 +552,7 @@ def judge(ctx, cases, cfgs, for_c03):
                             k = (c.op, s, moc, ff)
                             mism_codes[k] = mism_codes.get(k, 0) + 1
                             unexplained.append(("first fatal code differs from the model", c, (a, s, ns)))
-                    elif (s == "WF" or (s == "IG" and ns == 0)) and moc == "ok" and c.tag != "trunc-tail":
+                    elif (s == "WF" or (s == "IG" and ns == 0)) and moc == "ok" and c.tag not in ("trunc-tail", "bad-bytes"):
                         unexplained.append(("model accepts a mutant the implementation rejects", c, (a, s, ns)))
             if c.kind == "valid" or True:
                 ctx.distinct((c.kind, c.op, hex4(c.units), ns))
